@@ -330,29 +330,32 @@ Fixpoint v0_sections {St X : Type} (p : parser St) (l : list X) : parser (list S
   | _ :: r => a <- p ;; b <- v0_sections p r ;; ret (a :: b)
   end.
 
-(* deserialize; bytes after the last output section are not looked at *)
+(* deserialize(r io.Reader) as a stream parser: the packet and the bytes left in the reader *)
+Definition v0_parse_rest : parser v0pset :=
+  m <- take 5 ;;
+  if negb (bytes_eqb m v0_magic) then pfail else
+  k0 <- v0_p_key ;;
+  match k0 with
+  | Some [tb] =>
+      if negb (n8 tb =? v0_T_UnsignedTx) then pfail else
+      v <- v0_p_val ;;
+      match v0_parse_tx_value v with
+      | None => pfail
+      | Some t =>
+          if negb (v0_unsigned_ok t) then pfail else
+          unk <- v0_section v0_gunk_step [] ;;
+          ins <- v0_sections (v0_section v0_in_step v0_in_empty) (t_ins t) ;;
+          outs <- v0_sections (v0_section v0_out_step v0_out_empty) (t_outs t) ;;
+          (* SanityCheck *)
+          if forallb v0_sane ins then ret (mk_v0pset t ins outs unk) else pfail
+      end
+  | _ => pfail
+  end.
+
+(* NewPsetFromHex / NewPsetFromBase64: deserialize(bytes.NewReader(decoded)); the reader is not
+   checked for leftover bytes, so whatever follows the last output section is not looked at *)
 Definition v0_parse (bs : bytes) : option v0pset :=
-  match
-    (m <- take 5 ;;
-     if negb (bytes_eqb m v0_magic) then pfail else
-     k0 <- v0_p_key ;;
-     match k0 with
-     | Some [tb] =>
-         if negb (n8 tb =? v0_T_UnsignedTx) then pfail else
-         v <- v0_p_val ;;
-         match v0_parse_tx_value v with
-         | None => pfail
-         | Some t =>
-             if negb (v0_unsigned_ok t) then pfail else
-             unk <- v0_section v0_gunk_step [] ;;
-             ins <- v0_sections (v0_section v0_in_step v0_in_empty) (t_ins t) ;;
-             outs <- v0_sections (v0_section v0_out_step v0_out_empty) (t_outs t) ;;
-             (* SanityCheck *)
-             if forallb v0_sane ins then ret (mk_v0pset t ins outs unk) else pfail
-         end
-     | _ => pfail
-     end) bs
-  with
+  match v0_parse_rest bs with
   | Some (p, _) => Some p
   | None => None
   end.
